@@ -79,6 +79,7 @@ type Inst struct {
 	last                     string
 	sawBlockFromPeer         bool
 	applied                  []string
+	horizon                  int // number of events this execution will apply (0: unknown)
 	pendingViol              []core.Violation
 }
 
@@ -288,6 +289,22 @@ func (i *Inst) refUniverse() *world.Universe {
 	cu.Parent = i.Parent
 	cu.Height = i.Height
 	return &cu
+}
+
+// SetHorizon is called by the explorer before a replay (see xplore.setHorizon).
+func (i *Inst) SetHorizon(n int) { i.horizon = n }
+
+// LastEvent reports whether the event being applied (Before) or just applied
+// (After) is the last one of this execution; true when the horizon is unknown.
+func (i *Inst) lastEvent(after bool) bool {
+	if i.horizon == 0 {
+		return true
+	}
+	n := len(i.applied)
+	if !after {
+		n++
+	}
+	return n >= i.horizon
 }
 
 // Apply performs one event.
